@@ -208,6 +208,10 @@ def invisibility(ctx, pool, quick):
     return evals, nontrivial, fails, strata
 
 
+def _inv_task(chunk):
+    return invisibility(None, chunk, False)
+
+
 def footprint(ctx, doc, sym, det):
     """F-PRAGMA-INSIDE: the pragma line sits inside a multi-line element (the document does not split cleanly at the
     insertion point).  There the implementation is not invisible: per-line container prefixes and inline line numbers are
@@ -236,7 +240,16 @@ def run(ctx):
     res = [t for _, t in docs.rule_resources()]
     pool = docs.sample(ctx.rng, res, 60 if ctx.quick() else 656) + docs.sample(ctx.rng, docs.repo_sources(), 60 if ctx.quick() else 1500)
     pool = [d for d in dict.fromkeys(pool) if "pyml" not in d and 0 < len(d) < 1500]
-    evals, nontrivial, fails, strata = invisibility(ctx, pool, ctx.quick())
+    if ctx.quick():
+        evals, nontrivial, fails, strata = invisibility(ctx, pool, True)
+    else:
+        import multiprocessing as mp
+        chunks = [pool[k::16] for k in range(16)]
+        with mp.get_context("fork").Pool(16) as pl:
+            parts = pl.map(_inv_task, chunks, chunksize=1)
+        evals = sum(p[0] for p in parts); nontrivial = set().union(*[p[1] for p in parts])
+        fails = [f for p in parts for f in p[2]]
+        strata = {k: sum(p[3][k] for p in parts) for k in ("clean", "inside")}
     absorbed = {}
     if os.environ.get("VERIF_DUMP"):
         json.dump(fails, open(os.environ["VERIF_DUMP"], "w"), indent=0)
